@@ -72,6 +72,45 @@ def task_save_dispatch(I):
                     set(seen[0][2]) == set(opts) and all(seen[0][2][k] is opts[k] for k in opts)
                 I.ground('C12.save.dispatch_by_%s_case_insensitive_same_options' % label.replace('.', '_'), ok,
                          witness=dict(ext=spelled, route=label, outcome=repr(res)[:100], calls=len(seen)), replay=dict(fn='replay_routes', kind=ext))
+    # svgz (gzip compressed SVG): any spelling of the extension / kind opens a gzip stream on `out` and hands it to the SVG serialiser
+    import gzip
+    opened = []
+
+    class GzStream:
+        def __enter__(self):
+            return self
+
+        def __exit__(self, *a):
+            opened[-1]['closed'] = True
+            return False
+
+    def m_gzip_open(target, mode='rb', compresslevel=9, **kw):
+        g = GzStream()
+        opened.append(dict(target=target, mode=mode, compresslevel=compresslevel, stream=g, closed=False))
+        return g
+    saved_gz = I.native_models.get(gzip.open)
+    I.native_models[gzip.open] = m_gzip_open
+    svg = w._VALID_SERIALIZERS['svg']
+    for spelled in ('svgz', 'SVGZ', 'Svgz'):
+        class Stream2:
+            pass
+        for out, kind, label, level in (('some.dir/qr.' + spelled, None, 'name', None), (Stream2(), spelled, 'kind', 3), ('plain-name', spelled, 'kind', None)):
+            del seen[:]
+            del opened[:]
+            res = {}
+            kw = dict(opts, kind=kind)
+            if level is not None:
+                kw['compresslevel'] = level
+            I.explore(lambda I: I.call_function(f, (matrix, size, out), kw), lambda I, k, v: res.update(kind=k, val=v))
+            ok = res.get('kind') == 'return' and len(seen) == 1 and len(opened) == 1 and seen[0][0] is svg and opened[0]['target'] is out and \
+                opened[0]['mode'] == 'wb' and opened[0]['compresslevel'] == (9 if level is None else level) and opened[0]['closed'] and \
+                seen[0][1] == (matrix, size, opened[0]['stream']) and set(seen[0][2]) == set(opts) and all(seen[0][2][k] is opts[k] for k in opts)
+            I.ground('C12.save.svgz_by_%s_case_insensitive_is_gzip_of_the_svg_serialiser' % label, ok,
+                     witness=dict(ext=spelled, route=label, outcome=repr(res)[:100], calls=len(seen), opened=len(opened)), replay=dict(fn='replay_routes', kind='svg'))
+    if saved_gz is None:
+        del I.native_models[gzip.open]
+    else:
+        I.native_models[gzip.open] = saved_gz
     for bad in ('qr.gif', 'qr', 'qr.', 'qr.svgx'):
         res = {}
         del seen[:]
